@@ -217,3 +217,27 @@ Definition ok (c : case) : bool :=
             && (if upd then (o_quota o =? -1) && zlist_eqb (o_cpuset o) all
                 else (o_quota o =? 0) && zlist_eqb (o_cpuset o) (p_cores p)))
   end.
+
+(* ---- end-to-end cases: engine parameters produced by the real cpumem plugin
+   (CalculateDeploy / CalculateRealloc / CalculateRemap) fed to the docker engine ---- *)
+
+Record chain := mkChain {
+  ch_case : case;
+  ch_frag : Z;            (* pieces the plugin put on the fragment core (0: whole cores only / unbound) *)
+  ch_base : Z;            (* Scheduler.ShareBase: pieces of one whole core *)
+  ch_consistent : bool }. (* the engine parameters agree with the plugin's workload record
+                             (same cpu_map, NUMA node, cpu and memory limits) *)
+
+Definition cagree (c : chain) : bool := agree (ch_case c).
+
+(* the settings enforce the allocation: the C31 reflection, plus the C05 -> C31 link:
+   the shares of a bound workload are 1024 x (fragment pieces / share base) up to the
+   granularity of the pieces (pieces = round(cpu x base), so the fraction and
+   pieces/base differ by at most 1/(2 base)) and the rounding of the shares *)
+Definition cok (c : chain) : bool :=
+  ok (ch_case c) && ch_consistent c
+  && (let k := ch_case c in
+      let bound := negb (is_nil (p_cores (c_params k))) && negb (p_remap (c_params k)) in
+      if bound && (0 <? ch_frag c) && outcome_eqb (o_outcome (c_obs k)) Ok
+      then Z.abs (o_shares (c_obs k) * ch_base c - 1024 * ch_frag c) <=? 512 + ch_base c
+      else true).
